@@ -799,8 +799,7 @@ func (x *Exec) instantiatePending() []*Term {
 func hView(x *Exec, st *State, fn *ssa.Function, args []*Val, pos token.Pos) ([]*Val, error) {
 	tb := x.tb
 	b, p, lo, hi := args[0], args[1], args[2].C[0], args[3].C[0]
-	r := tb.And(tb.Eq(b.C[2], tb.Sub(hi, lo)),
-		tb.Or(tb.Eq(hi, lo), tb.And(tb.Eq(b.C[0], p.C[0]), tb.Eq(b.C[1], tb.Add(p.C[1], lo)))))
+	r := tb.And(tb.Eq(b.C[2], tb.Sub(hi, lo)), tb.Eq(b.C[0], p.C[0]), tb.Eq(b.C[1], tb.Add(p.C[1], lo)))
 	return []*Val{x.boolVal(r)}, nil
 }
 
